@@ -17,6 +17,8 @@ class Pointer(int, BaseType, Generic[T]):
     """Pointer to some other type."""
 
     type: type[T]
+    ptype: type[BaseType] | None = None
+    """The integer type of this pointer type: the pointer type of the cstruct instance at the time it was made."""
     _stream: BinaryIO | None
     _context: dict[str, Any] | None
     _value: T | None
@@ -75,11 +77,11 @@ class Pointer(int, BaseType, Generic[T]):
 
     @classmethod
     def __default__(cls) -> Self:
-        return cls.__new__(cls, cls.cs.pointer.__default__(), None, None)
+        return cls.__new__(cls, (cls.ptype or cls.cs.pointer).__default__(), None, None)
 
     @classmethod
     def _read(cls, stream: BinaryIO, context: dict[str, Any] | None = None) -> Self:
-        return cls.__new__(cls, cls.cs.pointer._read(stream, context), stream, context)
+        return cls.__new__(cls, (cls.ptype or cls.cs.pointer)._read(stream, context), stream, context)
 
     @classmethod
     def _read_0(cls, stream: BinaryIO, context: dict[str, Any] | None = None) -> list[Self]:
@@ -93,7 +95,7 @@ class Pointer(int, BaseType, Generic[T]):
 
     @classmethod
     def _write(cls, stream: BinaryIO, data: int) -> int:
-        return cls.cs.pointer._write(stream, data)
+        return (cls.ptype or cls.cs.pointer)._write(stream, data)
 
     def dereference(self) -> T:
         if self == 0 or self._stream is None:
